@@ -296,7 +296,7 @@ PROPS["C06"] = {
     "trusted": RT_TRUSTED + ["encoding/json.Marshal on the __premarshal structs is modelled in Rt/JsonEncode.v (omitempty, nil pointer/slice/interface, the shallower TypeName field hiding an implementation's own `__typename`) and compared with the real output on every decoded value of every run; user marshalers are the harness's stubs"],
     "assumptions": ["the round-trip theorems state equality after gnorm (order of a struct value's association list, unlisted field = zero value: neither is observable in Go) and carry explicit hypotheses that exclude exactly the recorded findings; on the real code unmarshal(marshal(v)) deep-equals v is decided by reflect.DeepEqual on the compiled generated types in every run"],
     "level_text": "Theorems over EVERY typemap: FlattenedFields (breadth-first over embedded fragment structs) selects exactly one Go field per JSON name; the object a struct marshals to carries each key at most once; an abstract value marshals with __typename = the GraphQL name of its concrete type exactly once and first. decode(encode v) = v is proved for the wrapper algebra of leaf types (slices at any depth, optional pointer, scalar-like leaf; unbounded), for plain structs nested and recursive (the generated input types) -- also in the property's own form, v ranging over the results of decode --, and for response types with embedded fragment structs and lists of abstract values under hypotheses that exclude exactly the recorded findings, each of which is proved to be needed by a refutation with a value unmarshaling produces. A concrete two-type response is proved to round-trip exactly, and the statement is REFUTED for null lists of abstract values (re-marshaled as [], known finding). Tied to marshal.go.tmpl / marshal_helper.go.tmpl / types.go by marshaling every decoded value with the compiled generated code and comparing the JSON with Rt/JsonEncode.v in-kernel; deep equality of the re-decoded value and equality with the response up to the documented loss are oracle checks on the same runs.",
-    "level_note": "not covered by a round-trip theorem: special fields other than lists of abstract values (custom marshalers, *Iface); four open findings (null list -> []; keys differing only by case; one key carried by a pointer and a non-pointer field; omitempty list [] -> nil).",
+    "level_note": "marshaling terminates with one result for every value of every type (theorem; its hypothesis -- no struct contains itself by value, FlattenedFields defined -- is evaluated in-kernel on the type map of every explored program); not covered by a round-trip theorem: special fields other than lists of abstract values (custom marshalers, *Iface); four open findings (null list -> []; keys differing only by case; one key carried by a pointer and a non-pointer field; omitempty list [] -> nil).",
     "theorem_status": {"C06_one_field_per_json_name": "proved", "C06_each_key_once": "proved", "C06_typename_present_once": "proved",
                        "C06_witness_roundtrip": "proved (non-vacuity)", "C06_wrapper_roundtrip": "proved (round trip for slices^n around an optional pointer around a scalar-like type, unbounded)", "C06_wrapper_roundtrip_witness": "proved (non-vacuity)", "C06_null_list_roundtrip_refuted": "refuted part of the statement (witness by vm_compute; known finding)",
                        "C06_plain_struct_roundtrip": "proved (the generated input types and every struct of named non-special fields, nested and recursive: decode(encode v) = v up to gnorm for every value unmarshaling can produce)",
@@ -305,7 +305,10 @@ PROPS["C06"] = {
                        "C06_response_roundtrip": "proved (embedded fragment structs with case-distinct keys, lists of abstract values dispatched by __typename; the recorded findings excluded by explicit hypotheses)",
                        "C06_omitempty_empty_list_refuted": "refuted part of the statement (omitempty list field: [] is omitted and comes back nil; finding F-C06-4)",
                        "C06_embedded_case_collision_refuted": "refuted part of the statement (F-C06-2 between a struct and its embedded fragment)",
-                       "C06_embedded_shared_key_refuted": "refuted part of the statement (F-C06-3)"},
+                       "C06_embedded_shared_key_refuted": "refuted part of the statement (F-C06-3)",
+                       "C06_marshal_result_independent_of_fuel": "proved", "C06_marshal_terminates": "proved",
+                       "C06_marshal_termination_check_is_sound": "proved", "C06_marshal_termination_witness": "proved",
+                       "C06_by_value_cycle_diverges": "proved"},
 }
 
 PROPS["C04"] = {
